@@ -72,8 +72,63 @@ def _f(x):
     return x
 
 
+def _nonfinite(x):
+    return isinstance(x, float) and (x != x or x in (float("inf"), float("-inf")))
+
+
+def _has_nf_leaf(t, depth=6):
+    """ite-tree with a concrete non-finite leaf (IEEE special value flowing through real-mode terms)"""
+    if _nonfinite(t):
+        return True
+    if is_t(t) and t.op == "ite" and depth > 0:
+        return _has_nf_leaf(t.args[1], depth - 1) or _has_nf_leaf(t.args[2], depth - 1)
+    return False
+
+
+def _lift1(f, a):
+    if is_t(a) and a.op == "ite" and _has_nf_leaf(a):
+        return ite(a.args[0], _lift1(f, a.args[1]), _lift1(f, a.args[2]))
+    return f(a)
+
+
+def _lift2(f, a, b):
+    if is_t(a) and a.op == "ite" and _has_nf_leaf(a):
+        return ite(a.args[0], _lift2(f, a.args[1], b), _lift2(f, a.args[2], b))
+    if is_t(b) and b.op == "ite" and _has_nf_leaf(b):
+        return ite(b.args[0], _lift2(f, a, b.args[1]), _lift2(f, a, b.args[2]))
+    return f(a, b)
+
+
 def fbin(op, a, b):
+    if (is_t(a) and a.op == "ite" and _has_nf_leaf(a)) or (is_t(b) and b.op == "ite" and _has_nf_leaf(b)):
+        return _lift2(lambda x, y: fbin(op, x, y), a, b)
     ca, cb = is_conc(a), is_conc(b)
+    # IEEE special values meeting symbolic (finite) operands
+    if op == "fdiv" and cb and float(b) == 0.0 and not ca:
+        pinf = float("inf") if math.copysign(1.0, float(b)) > 0 else float("-inf")
+        return ite(fcmp("flt", 0.0, a), pinf, ite(fcmp("flt", a, 0.0), -pinf, float("nan")))
+    if (ca and _nonfinite(float(a)) and not cb) or (cb and _nonfinite(float(b)) and not ca):
+        x, sym = (float(a), b) if ca else (float(b), a)
+        if x != x:
+            if op in ("fmin", "fmax"):
+                return sym
+            return float("nan")
+        if op in ("fmin", "fmax"):
+            big = x > 0
+            if op == "fmin":
+                return sym if big else x
+            return x if big else sym
+        if op in ("fadd",):
+            return x
+        if op == "fsub":
+            return x if ca else -x
+        if op == "fdiv" and cb:
+            return 0.0
+        if op == "fmul":
+            s_ = fcmp("flt", 0.0, sym)
+            return ite(s_, x, ite(fcmp("flt", sym, 0.0), -x, float("nan")))
+        if op == "fdiv" and ca:
+            return ite(fcmp("flt", 0.0, sym), x, ite(fcmp("flt", sym, 0.0), -x, x))
     if ca and cb:
         a, b = float(a), float(b)
         try:
@@ -139,6 +194,8 @@ def fbin(op, a, b):
 
 
 def fun(op, a):
+    if is_t(a) and a.op == "ite" and _has_nf_leaf(a):
+        return _lift1(lambda x: fun(op, x), a)
     if is_conc(a):
         a = float(a)
         if op == "fneg":
@@ -164,9 +221,26 @@ def fun(op, a):
 
 
 def fcmp(op, a, b):
+    if (is_t(a) and a.op == "ite" and _has_nf_leaf(a)) or (is_t(b) and b.op == "ite" and _has_nf_leaf(b)):
+        return _lift2(lambda x, y: fcmp(op, x, y), a, b)
     if is_conc(a) and is_conc(b):
         a, b = float(a), float(b)
         return {"flt": a < b, "fle": a <= b, "fgt": a > b, "fge": a >= b, "feq": a == b, "fne": a != b}[op]
+    # a symbolic value is a finite real: comparisons with IEEE special constants are decided
+    for x, other_is_left in ((a, False), (b, True)):
+        if is_conc(x) and _nonfinite(float(x)):
+            x = float(x)
+            if x != x:
+                return op == "fne"
+            pos = x > 0
+            # relation "sym OP x" when other_is_left else "x OP sym"
+            if op in ("feq",):
+                return False
+            if op in ("fne",):
+                return True
+            if other_is_left:   # sym (a) OP x (b)
+                return {"flt": pos, "fle": pos, "fgt": not pos, "fge": not pos}[op]
+            return {"flt": not pos, "fle": not pos, "fgt": pos, "fge": pos}[op]
     # normalise gt/ge to lt/le
     if op == "fgt":
         return mk("flt", (b, a), "B")
